@@ -521,6 +521,29 @@ def success_sinks(H):
     return ok_sinks(H)
 
 
+def _exit_refuses_by_flag(fn, v, e, lp, effectful):
+    """a loop exit that is an error return in disguise: from the (forced) chain of blocks that ends in the exit edge, following
+    only the feasible sides of later flag tests, every return is an error and none of the code after the loop runs"""
+    starts = [e[1]]
+    s = e[0]
+    for _ in range(4):
+        if s not in lp["body"] or len([t for (t, lab) in fn.succs()[s] if lab != "unwind"]) != 1:
+            break
+        starts.append(s)
+        ps = [p for (p, _l) in fn.preds().get(s, ())]
+        if len(ps) != 1:
+            break
+        s = ps[0]
+    for st in starts:
+        r = reach_flagaware(fn, v, st)
+        ws = [(b, k) for (b, k, _) in ret_writes(fn) if b in r]
+        errw = {b for (b, k) in ws if k in ("err", "residual")}
+        if ws and all(k in ("err", "residual") for _, k in ws) and not ((r - lp["body"] - errw) & effectful):
+            return True
+    return False
+
+
+
 def reach_flagaware(fn, v, start):
     """blocks reachable from `start`, not following the infeasible side of a flag test: at a test of a boolean local all of whose
     definitions on the way from `start` are the same constant, only the matching edge is taken (`ok = false; .. if !ok { Err }`)"""
@@ -917,6 +940,9 @@ def loop_report(prog, fn, view=None):
                     not ((fn.reach(e[1], stop=frozenset({lp["header"]})) - lp["body"]) & effectful):
                 # returns an error without running any of the code that follows the loop
                 cls.append((e, "error"))
+            elif _exit_refuses_by_flag(fn, v, e, lp, effectful):
+                # `found = true; break; .. if found { return Err(..) }`: the exit sets a flag whose test refuses
+                cls.append((e, "error"))
             else:
                 cls.append((e, "break"))
         info["exits"] = cls
@@ -924,6 +950,29 @@ def loop_report(prog, fn, view=None):
         info["iter_term"] = None
         for b in next_bbs:
             info["iter_term"] = v.cx.operand(fn.blocks[b].term["args"][0])
+        if len(next_bbs) == 2:
+            # two iterators stepped once per iteration, the loop ending when either runs out (`for a in A { let Some(b) =
+            # it.next() else { break }; .. }`): a lock-step traversal, the same as `A.zip(B)`
+            rpo = fn.rpo()
+            na, nb = sorted(next_bbs, key=lambda b: rpo.get(b, 0))
+            some_b = {e for (e, fact) in v.facts if fact[0] == "succ" and fact[2] and is_call(fact[1], name="next")
+                      and fact[1][3] and fact[1][3][-1] == nb and e[0] in own}
+            none_b = {e for (e, fact) in v.facts if fact[0] == "succ" and not fact[2] and is_call(fact[1], name="next")
+                      and fact[1][3] and fact[1][3][-1] == nb and e[0] in own}
+            some_a = {e[1] for (e, fact) in v.facts if fact[0] == "succ" and fact[2] and is_call(fact[1], name="next")
+                      and fact[1][3] and fact[1][3][-1] == na and e[0] in own}
+            _, back = body_reach(fn, lp, list(some_a), removed_edges=some_b | none_b) if some_b and some_a else (None, True)
+            between = fn.reach(na, stop=frozenset({nb}), removed=frozenset()) & own
+            quiet = all(fn.blocks[b].term["k"] != "call" or b in (na, nb) or
+                        (callee_of(fn.blocks[b].term) or {}).get("name") in ("deref", "deref_mut", "as_ref", "borrow", "clone")
+                        for b in between if nb in fn.reach(b) and b != nb)
+            if some_b and none_b and not back and all(e in exhausted for e in none_b) and quiet:
+                ita = v.cx.operand(fn.blocks[na].term["args"][0])
+                itb = v.cx.operand(fn.blocks[nb].term["args"][0])
+                info["lockstep"] = (ita, itb)
+                info["iter_term"] = ("call", "core::iter::traits::iterator::Iterator::zip", (ita, itb), None, None)
+                some_targets = {e[1] for e in some_b}
+                info["some_targets"] = some_targets
         # skippable accumulations (writes that sit in a nested loop belong to that loop)
         acc = {}
         for l, bs in accumulation_sites(fn, lp).items():
@@ -977,8 +1026,9 @@ def body_reach(fn, lp, starts, removed_blocks=frozenset(), removed_edges=frozens
 
 
 def reductions(ctx, key, adaptors=None, skip=None, brk=None, min_loops=0, rule="RED", exclude_loops=(), labels=None, fn=None, view=None,
-               only_loops=None):
-    """Engine D on one function: (ii) the truncating/reordering adaptors are exactly the reviewed ones;
+               only_loops=None, may_be_absent=()):
+    """Engine D on one function: (ii) the truncating/reordering adaptors are exactly the reviewed ones (those listed in
+    may_be_absent need not occur: a `zip` written as a lock-step loop, its pairing being decided by a rule of its own);
     (iii) no iteration can skip an accumulation and no exit other than exhaustion / an error return leaves a loop,
     except under the reviewed conditions (fact matchers).
     skip: {variable name: fact matcher for edges on which skipping is allowed}
@@ -990,7 +1040,9 @@ def reductions(ctx, key, adaptors=None, skip=None, brk=None, min_loops=0, rule="
     skip = skip or {}
     brk = brk or []
     inv = {k: n for k, n in adaptor_inventory(f).items() if k not in LOOKUPS}
-    ctx.check(inv == adaptors, rule, key, "adaptors",
+    same = inv == adaptors or (all(inv.get(k, 0) == n for k, n in adaptors.items() if k not in may_be_absent) and
+                               all(k in adaptors and n <= adaptors[k] for k, n in inv.items()))
+    ctx.check(same, rule, key, "adaptors",
               "the set of element-dropping/reordering adaptors in %s is %s, reviewed set is %s: a reduction over "
               "participants/coefficients/items may no longer cover every element (or its order changed)"
               % (key, inv, adaptors), f.loc, {"found": inv})
@@ -1055,7 +1107,9 @@ def forall_loop(ctx, fn, rule, what, src_pred, mechanisms, sinks=None, require_f
     return None
 
 
-CONSUMERS = {"map": 2, "try_for_each": 2, "try_fold": 3, "all": 2, "any": 2, "for_each": 2, "fold": 3}
+CONSUMERS = {"map": 2, "try_for_each": 2, "try_fold": 3, "all": 2, "any": 2, "for_each": 2, "fold": 3, "find": 2, "position": 2}
+# `find(p)` / `position(p)` are Some exactly when `any(p)` is true: the closure's `true` stops the traversal, None means "every
+# element gave false"
 
 
 def _forall(prog, v, src_pred, mechanisms, sinks, require_fail_err, depth):
@@ -1092,7 +1146,8 @@ def _forall(prog, v, src_pred, mechanisms, sinks, require_fail_err, depth):
         _, back = body_reach(fn, lp, list(lp["some_targets"]), removed_edges=edges)
         early = [e for (e, c) in lp["exits"] if c == "break"]
         exh = {e for (e, c) in lp["exits"] if c == "exhausted"}
-        bypass = sep(fn, exh, sinks)
+        # an exit classified "error" reaches (feasibly) only error returns: it cannot lead to a sink
+        bypass = sep(fn, exh | {e for (e, c) in lp["exits"] if c == "error"}, sinks)
         found.append((lp, back, early, bypass, edges))
         if not back and not early and not bypass and edges:
             r = dict(lp)
@@ -1145,6 +1200,11 @@ def _forall(prog, v, src_pred, mechanisms, sinks, require_fail_err, depth):
             if fa[0] == "cond" and fa[1] in ("all", "any") and fa[3] is not None and fa[3][0] == "closure" and fa[3][1] == clo[1] \
                     and fa[4] == (fa[1] == "all"):
                 gate.add(e)
+            if ci["name"] in ("find", "position") and fa[0] == "succ" and not fa[2] and \
+                    mentions(fa[1], lambda s: s[0] == "closure" and s[1] == clo[1]):
+                gate.add(e)         # the None edge: no element made the predicate true
+        if ci["name"] in ("find", "position"):
+            gate = {e for e in gate if not any(e2 == e and fa[0] == "succ" and fa[2] for (e2, fa) in v.own_facts)}
         guarded = set()
         for (b, kk, rv) in ret_writes(fn):
             if b in sinks and kk in ("call", "other"):
@@ -1267,7 +1327,7 @@ def closure_continue_sinks(prog, cf, cv, consumer, matchers):
         if k == "other" and rv.get("k") == "use" and "const" in rv["op"] and rv["op"]["const"].get("bits") == stop:
             continue
         T = cv.cx.call(rv, cv.cx.site(b)) if k == "call" else cv.cx.rvalue(rv, (cf.key, b, 0)) if k == "other" else None
-        if T is not None and consumer in ("all", "any"):
+        if T is not None and consumer in ("all", "any", "find", "position"):
             kind, a_, b_, pos = norm_cond(T)
             fa = ("cond", kind, a_, b_, pos == (consumer == "all"))
             if any(m(fa) == "pass" for m in matchers):
@@ -1662,6 +1722,20 @@ def closure_body(prog, clo, argmap):
     return TermCx(prog, cf, sub, 1).local(0)
 
 
+def resimp(t):
+    """re-run the local simplifications bottom-up (after a substitution put an aggregate under a field projection)"""
+    from .terms import simp
+    if not isinstance(t, tuple) or not t:
+        return t
+    if isinstance(t[0], str):
+        if t[0] in ("call", "op"):
+            t = (t[0], t[1], tuple(resimp(x) for x in t[2])) + t[3:]
+        else:
+            t = tuple(resimp(x) if isinstance(x, tuple) else x for x in t)
+        return simp(t) if t[0] == "field" else t
+    return tuple(resimp(x) if isinstance(x, tuple) else x for x in t)
+
+
 def reduction_of(prog, fn, v, t):
     """Unified description of an accumulated value.  t is a term that is
          phi(local ..)                                   (loop form:  for x in S { acc = step(acc, x) })   or
@@ -1675,7 +1749,14 @@ def reduction_of(prog, fn, v, t):
         t = t[1]
     if t[0] == "call" and t[1].rsplit("::", 1)[-1] in ("fold", "try_fold") and len(t[2]) == 3:
         src, init, clo = t[2]
-        body = closure_body(prog, clo, {2: ACC, 3: ITEM})
+        # a source mapped or zipped before it is folded: the step sees the mapped element; the source is the base collection
+        # (zip(A, B) over the two bases for a zip, the element then over ITEM.0 / ITEM.1)
+        elem = ITEM
+        lv = lockstep_view(prog, src) if mentions(src, lambda u: is_call(u, name="map") or is_call(u, name="zip")) else None
+        if lv is not None:
+            elem = lv[1]
+            src = lv[0][0] if len(lv[0]) == 1 else ("call", "core::iter::traits::iterator::Iterator::zip", lv[0], None, None)
+        body = closure_body(prog, clo, {2: ACC, 3: elem})
         if body is None:
             return None
         if t[1].rsplit("::", 1)[-1] == "try_fold":
@@ -1698,6 +1779,11 @@ def reduction_of(prog, fn, v, t):
                 if it is None:
                     return None
                 item = lambda x, it=it: x[0] == "some" and is_call(x[1], name="next") and x[1][2] and x[1][2][0] == it
+                elem, src_term = ITEM, strip_iter_calls(it)
+                lvw = lockstep_view(prog, it) if mentions(it, lambda u: is_call(u, name="map") or is_call(u, name="zip")) else None
+                if lvw is not None:
+                    elem = lvw[1]
+                    src_term = lvw[0][0] if len(lvw[0]) == 1 else ("call", "core::iter::traits::iterator::Iterator::zip", lvw[0], None, None)
                 lv = lambda x: x[0] == "loopvar" and x[2] == local
                 cx = TermCx(prog, fn, v.cx.argsub, v.cx.depth, frames=v.cx.frames)     # same vocabulary as the view
                 cx.busy.add(local)
@@ -1706,18 +1792,79 @@ def reduction_of(prog, fn, v, t):
                 ds = sorted([d for d in fn.defs().get(local, []) if d[0] in ("assign", "call")], key=lambda d: (rpo.get(d[1], 0), d[2] if d[0] == "assign" else 10 ** 6))
                 for d in ds:
                     x = cx.rvalue(d[3], (fn.key, d[1], d[2])) if d[0] == "assign" else cx.call(d[2], (fn.key, d[1]))
-                    x = subst(x, [(lv, ACC), (item, ITEM)])
+                    x = subst(x, [(lv, ACC), (item, elem)])
+                    if elem != ITEM:
+                        x = resimp(x)
                     if d[1] in lp["body"]:
                         steps.append(x)
                     elif mentions(x, lambda s: s == ACC):
                         after.append(x)
                     else:
                         init.append(x)
-                return {"source": strip_iter_calls(it), "init": init, "steps": steps, "after": after, "form": "loop",
+                return {"source": src_term, "init": init, "steps": steps, "after": after, "form": "loop",
                         "skippable": lp["skippable"].get(local, False), "early_exit": any(c == "break" for _, c in lp["exits"]), "loop": lp}
         return None
     # wrapped: add(reduction, extra) etc. are handled by the callers
     return None
+
+
+def apply_callable(prog, c, args):
+    """the value of calling `c` — a closure term or a path to a workspace function (`.map(Delta::new)`) — on the given terms"""
+    if not isinstance(c, tuple) or not c:
+        return None
+    if c[0] == "closure":
+        return closure_body(prog, c, {i + 2: a for i, a in enumerate(args)})
+    if c[0] == "fnref":
+        g = prog.fns.get(c[1])
+        if g is not None and g.has_body and g.crate.startswith("frost") and len(g.blocks) <= 12:
+            return TermCx(prog, g, {i + 1: a for i, a in enumerate(args)}, 1).local(0)
+    return None
+
+
+def _ok_payload_of(body):
+    """a fallible per-element mapping collected into Result<_, E>: the entry is the Ok payload (errors stop the collection)"""
+    alts = [a for a in (body[2] if body[0] == "phi" else (body,)) if a[0] not in ("residual", "errval")
+            and not (a[0] == "agg" and a[2] == "core::result::Result" and a[3] == "Err")]
+    if len(alts) == 1 and alts[0][0] == "agg" and alts[0][2] == "core::result::Result" and alts[0][3] == "Ok":
+        return alts[0][4][0][1]
+    if len(alts) == 1:
+        return alts[0]
+    return body
+
+
+def lockstep_view(prog, t, depth=0):
+    """element-wise view of an iterator expression built from `.iter()`, `.map(f)` and `.zip(..)` only:
+    (sources, elem) — the base collections walked in lock step (one or two) and the element produced for the i-th step, over
+    ITEM (one source) or ITEM.0 / ITEM.1 (two).  None if anything else (an element-dropping adaptor, three-way zips) occurs."""
+    if not isinstance(t, tuple) or not t or depth > 6:
+        return None
+    x = t
+    while True:
+        if x[0] == "iter":
+            x = x[1]
+        elif x[0] == "call" and x[1].rsplit("::", 1)[-1] in ("iter", "into_iter", "copied", "cloned", "by_ref") and len(x[2]) == 1:
+            x = x[2][0]
+        else:
+            break
+    if is_call(x, name="map") and len(x[2]) == 2 and "Iterator" in x[1]:
+        inner = lockstep_view(prog, x[2][0], depth + 1)
+        if inner is None:
+            return None
+        body = apply_callable(prog, x[2][1], [inner[1]])
+        if body is None:
+            return None
+        return inner[0], body
+    if is_call(x, name="zip") and len(x[2]) == 2:
+        a, b = lockstep_view(prog, x[2][0], depth + 1), lockstep_view(prog, x[2][1], depth + 1)
+        if a is None or b is None or len(a[0]) != 1 or len(b[0]) != 1:
+            return None
+        ea = subst(a[1], [(lambda y: y == ITEM, ("field", ITEM, None, "0"))])
+        eb = subst(b[1], [(lambda y: y == ITEM, ("field", ITEM, None, "1"))])
+        return (a[0][0], b[0][0]), ("agg", "tuple", None, None, (("0", ea), ("1", eb)))
+    sv = seq_view(x)
+    if sv is None or sv["adaptors"] or sv["drop_front"] or sv["drop_back"] or sv.get("filters") or sv.get("reversed"):
+        return None
+    return (sv["base"],), ITEM
 
 
 def mapping_of(prog, fn, v, t):
@@ -1735,21 +1882,27 @@ def mapping_of(prog, fn, v, t):
         if m and m["key"] is None and m["val"][0] == "agg" and m["val"][1] == "tuple" and len(m["val"][4]) == 2:
             return {"source": m["source"], "key": None, "val": m["val"][4][int(t[3])][1], "form": m["form"] + "+unzip"}
         return None
-    if is_call(t, name="collect") and t[2] and is_call(t[2][0], name="map"):
+    if is_call(t, name="collect") and t[2] and (is_call(t[2][0], name="map") or is_call(t[2][0], name="zip")):
         t = t[2][0]
+    if (is_call(t, name="map") and len(t[2]) == 2 and "Iterator" in t[1]) or (is_call(t, name="zip") and len(t[2]) == 2):
+        # two sequences walked in lock step (`a.zip(b)`, mapped before or after the zip): one value per pair; the source is
+        # rendered as zip(A, B) over the two base collections, the element over ITEM.0 / ITEM.1
+        lv = lockstep_view(prog, t)
+        if lv is not None and len(lv[0]) == 2:
+            body = _ok_payload_of(lv[1])
+            src2 = ("call", "core::iter::traits::iterator::Iterator::zip", (lv[0][0], lv[0][1]), None, None)
+            if body[0] == "agg" and body[1] == "tuple" and len(body[4]) == 2:
+                return {"source": src2, "key": body[4][0][1], "val": body[4][1][1], "form": "zip-map"}
+            return {"source": src2, "key": None, "val": body, "form": "zip-map"}
+        if is_call(t, name="zip"):
+            return None
     if is_call(t, name="map") and len(t[2]) == 2 and "Iterator" in t[1]:
         # `.map(f)` consumed lazily or collected: one value per element either way
         src, clo = t[2]
-        body = closure_body(prog, clo, {2: ITEM})
+        body = apply_callable(prog, clo, [ITEM])
         if body is None:
             return None
-        # a fallible mapping collected into Result<_, E>: the entry is the Ok payload (errors stop the collection)
-        alts = [a for a in (body[2] if body[0] == "phi" else (body,)) if a[0] not in ("residual", "errval")
-                and not (a[0] == "agg" and a[2] == "core::result::Result" and a[3] == "Err")]
-        if len(alts) == 1 and alts[0][0] == "agg" and alts[0][2] == "core::result::Result" and alts[0][3] == "Ok":
-            body = alts[0][4][0][1]
-        elif len(alts) == 1:
-            body = alts[0]
+        body = _ok_payload_of(body)
         sv = seq_view(src)
         if sv is None or sv["adaptors"] or sv["drop_front"] or sv["drop_back"]:
             return None
@@ -2063,6 +2216,29 @@ def site_bb(site, f):
     return site[-1] if site[0] == f.key else None
 
 
+def loop_item_subst(lp):
+    """substitution turning the loop's current element(s) into ITEM (ITEM.0 / ITEM.1 for a lock-step loop), and the source"""
+    it = lp["iter_term"]
+    nxt = lambda i: (lambda x: x[0] == "some" and is_call(x[1], name="next") and x[1][2] and x[1][2][0] == i)
+    if lp.get("lockstep"):
+        a, b = lp["lockstep"]
+        return [(nxt(a), ("field", ITEM, None, "0")), (nxt(b), ("field", ITEM, None, "1"))]
+    return [(nxt(it), ITEM)]
+
+
+def loop_source(lp):
+    """base collection(s) a loop walks completely and in order: the base, zip(A, B) for a lock-step loop, None otherwise"""
+    def base(i):
+        sv = seq_view(i)
+        if sv is None or sv["adaptors"] or sv["drop_front"] or sv["drop_back"] or sv.get("filters") or sv.get("reversed"):
+            return None
+        return sv["base"]
+    if lp.get("lockstep"):
+        a, b = base(lp["lockstep"][0]), base(lp["lockstep"][1])
+        return None if a is None or b is None else ("call", "core::iter::traits::iterator::Iterator::zip", (a, b), None, None)
+    return base(lp["iter_term"])
+
+
 def map_components(P, f, v, t):
     """contents of a map / vector value as an unordered list of components:
        ("each", source, key, val)  one entry per element of `source` (key/val over ITEM; key None for vectors),
@@ -2089,10 +2265,24 @@ def map_components(P, f, v, t):
                 m = mapping_of(P, f, v, c[1])
                 out.append(("each", m["source"], m["key"], m["val"]) if m else c)
         return out
-    if t[0] == "mut" and _is_empty_ctor(t[1]):
-        out = []
+    if t[0] == "mut" and (_is_empty_ctor(t[1]) or (is_call(t[1], name="collect") and t[1][2])):
+        # an empty container, or one collected from a sequence, then filled further
+        out = [] if _is_empty_ctor(t[1]) else list(map_components(P, f, v, t[1]))
         lps = loop_report(P, f, v)
         for o in t[2]:
+            if o[1] == "extend" and len(o[2]) == 1 and site_bb(o[3], f) is not None and \
+                    not any(o[3][-1] in lp["body"] for lp in lps) and on_every_success_path(f, o[3][-1]):
+                # `.extend(seq)` outside loops adds the components of seq
+                for c in seq_components(P, f, v, o[2][0]):
+                    if c[0] == "each":
+                        k, val = split(c[2])
+                        out.append(("each", c[1], k, val))
+                    elif c[0] == "one":
+                        k, val = split(c[1])
+                        out.append(("one", k, val))
+                    else:
+                        out.append(("?", o))
+                continue
             if o[1] == "reserve":
                 continue
             if o[1] not in ("insert", "push") or site_bb(o[3], f) is None:
@@ -2112,14 +2302,13 @@ def map_components(P, f, v, t):
             if it is None or back or any(c == "break" for _, c in lp["exits"]) or len(inl) > 1:
                 out.append(("?", o))
                 continue
-            item = lambda x, it=it: x[0] == "some" and is_call(x[1], name="next") and x[1][2] and x[1][2][0] == it
-            args = [subst(a, [(item, ITEM)]) for a in o[2]]
-            sv = seq_view(it)
-            if sv is None or sv["adaptors"] or sv["drop_front"] or sv["drop_back"]:
+            args = [resimp(subst(a, loop_item_subst(lp))) for a in o[2]]
+            srcb = loop_source(lp)
+            if srcb is None:
                 out.append(("?", o))
                 continue
-            out.append(("each", sv["base"], args[0], args[1], ("loop", lp["header"])) if o[1] == "insert" and len(args) == 2
-                       else ("each", sv["base"], None, args[0], ("loop", lp["header"])))
+            out.append(("each", srcb, args[0], args[1], ("loop", lp["header"])) if o[1] == "insert" and len(args) == 2
+                       else ("each", srcb, None, args[0], ("loop", lp["header"])))
         return out
     m = mapping_of(P, f, v, t)
     if m:
@@ -2133,6 +2322,7 @@ def set_of(P, f, v, base):
     def m(t):
         if not isinstance(t, tuple) or not t:
             return False
+        t = look_through(P, t)        # a set handed back by a validating helper
         if is_call(t, name="collect") and t[2]:
             sv = seq_view(t[2][0])
             return sv is not None and not sv["adaptors"] and not sv["drop_front"] and not sv["drop_back"] and base(sv["base"])
